@@ -34,7 +34,14 @@ type incarnation struct {
 	Ms        int64  `json:"ms"`
 }
 
+type stuckJob struct {
+	ID      string `json:"id"`
+	Pid     int    `json:"pid"`
+	TmpInfo bool   `json:"jobinfo_tmp"`
+}
+
 type scenarioResult struct {
+	Stuck        []stuckJob    `json:"stuck,omitempty"` // after a hung restart: started, unfinished jobs
 	Incarnations []incarnation `json:"incarnations"`
 	Outs         string        `json:"outs"`
 	ErrorNames   []string      `json:"error_names,omitempty"` // stage paths named by the failure report
@@ -256,12 +263,49 @@ loop:
 		if cmd == nil {
 			break
 		}
-		e, to := waitMrp(cmd, 90*time.Second)
+		e, to := waitMrp(cmd, 40*time.Second)
 		recordComplete(evfile)
 		res.Incarnations = append(res.Incarnations, incarnation{Exit: e, TimedOut: to,
 			LockAfter: lockExists(dir, psid), Events: countLines(evfile), Tail: tail(out.String(), 1500),
 			Ms: time.Since(t1).Milliseconds()})
 		if e == 0 {
+			break
+		}
+		if to {
+			// which job attempts is mrp still waiting for?  The current attempt
+			// of a job is the target of the split / chnkN / join link in its
+			// fork directory.
+			filepath.WalkDir(filepath.Join(dir, psid), func(p string, d os.DirEntry, err error) error {
+				if err != nil || d.Type()&os.ModeSymlink == 0 {
+					return nil
+				}
+				n := d.Name()
+				if n != "split" && n != "join" && !strings.HasPrefix(n, "chnk") {
+					return nil
+				}
+				md, err := filepath.EvalSymlinks(p)
+				if err != nil {
+					return nil
+				}
+				if _, err := os.Stat(filepath.Join(md, "_jobinfo")); err != nil {
+					return nil // never submitted
+				}
+				for _, f := range []string{"_complete", "_errors", "_assert"} {
+					if _, err := os.Stat(filepath.Join(md, f)); err == nil {
+						return nil
+					}
+				}
+				var ji struct {
+					Pid int `json:"pid"`
+				}
+				if b, err := os.ReadFile(filepath.Join(md, "_jobinfo")); err == nil {
+					json.Unmarshal(b, &ji)
+				}
+				_, tmpErr := os.Stat(filepath.Join(md, "_jobinfo.tmp"))
+				rel, _ := filepath.Rel(filepath.Join(dir, psid), p)
+				res.Stuck = append(res.Stuck, stuckJob{ID: strings.ReplaceAll(rel, "/", "."), Pid: ji.Pid, TmpInfo: tmpErr == nil})
+				return nil
+			})
 			break
 		}
 	}
